@@ -105,7 +105,7 @@ def _tokens(arg: str, universe=None, what=''):
         items = [arg]
     out = []
     for it in items:
-        if not _NAME.match(it):
+        if universe is None and not _NAME.match(it):
             raise RefSyntaxError(f'{what}: bad token {it!r}')
         u = it.upper()
         if universe is not None and u not in universe:
@@ -331,8 +331,8 @@ def disjoint_modelsearch_categories(a, b):
     for c in ('ABSORPTION', 'ELIMINATION', 'TRANSITS', 'LAGTIME'):
         if not (a[c] & b[c]):
             out.append(c)
-    if not (drug_peripherals(a) & drug_peripherals(b)):
-        out.append('PERIPHERALS')
+    if drug_peripherals(b) and not (drug_peripherals(a) & drug_peripherals(b)):
+        out.append('PERIPHERALS')  # (a target space without drug peripherals offers no transformation)
     return out
 
 
